@@ -41,6 +41,8 @@ def run(chk, repo, tier):
     chk.clause('C15-f', 'quadrature terms are the textbook trapezoid and Simpson terms over consecutive edges', 4)
     chk.not_decided += ['linearity, additivity, exactness of the quadratures', 'positivity of Simpson weights']
 
+    from .common import self_delegation_forwards
+    self_delegation_forwards(chk, repo, 'C15-e', [f'{SPEC}.bin'])
     cls = repo.cls(SPEC)
     # ---------------------------------------------------------------- C15-a
     setter = cls.find_setter('wave')
